@@ -32,6 +32,7 @@ def _run(task):
     # one trace at a time, so that an exception inside a driver (a broken library returning something the driver's
     # own bookkeeping cannot handle) loses that trace only; lost traces are reported, never silently dropped
     import traceback
+    from harness import record
     out = []
     if kind == "driver":
         _, name, seed, start, count, prop, kw = task
@@ -39,6 +40,9 @@ def _run(task):
         for i in range(start, start + count):
             try:
                 out.extend(mod.generate(seed, 1, prop=prop, start=i, **kw))
+            except record.TraceTooLarge as big:
+                record.PRELUDE = None
+                out.append(big.recorder.to_json())          # the trace as far as it got, the large event included
             except Exception:  # noqa: BLE001
                 out.append({"crashed": traceback.format_exc()[-1500:], "where": "driver %s seed %d trace %d" % (name, seed, i)})
         return out
@@ -49,6 +53,8 @@ def _run(task):
         for i, item in enumerate(items):
             try:
                 out.append(fn(item, "%s-%s-%06d" % (prop, fn_name, start + i), prop, start + i, **kw))
+            except record.TraceTooLarge as big:
+                out.append(big.recorder.to_json())
             except Exception:  # noqa: BLE001
                 out.append({"crashed": traceback.format_exc()[-1500:], "where": "replay %s item %d" % (fn_name, start + i)})
         return out
